@@ -1021,3 +1021,207 @@ def handwritten():
         ("hand/iface-ext-adds-field-missing-in-impl", "type Query { a: Int } type T implements I { f: Int } interface I { f: Int } extend interface I { g: Int }"),
     ]
     return [(t, s + "\n") for t, s in c]
+
+
+# ------------------------------------------------------------------ repairing mutations (C15 hill-climbing)
+
+MUTATOR_DIRECTIVES = {"undefinedDirective", "elsewhere", "execOnly", "once", "needs", "typed", "zd", "ze"}
+
+
+def _roots(s):
+    sd = s.get("schema_def")
+    if sd is None:
+        return {op: n for op, n in (("query", "Query"), ("mutation", "Mutation"), ("subscription", "Subscription"))
+                if get_type(s, n) is not None and get_type(s, n)["kind"] == "object"}
+    r = dict(sd["roots"])
+    for _, rr in sd["exts"]:
+        r.update(dict(rr))
+    return r
+
+
+def _each_dirlist(s):
+    """every list of applied directives in the schema"""
+    sd = s.get("schema_def")
+    if sd is not None:
+        yield sd["dirs"]
+        for dirs, _ in sd["exts"]:
+            yield dirs
+    for dirs, _ in s.get("orphan_schema_exts", []):
+        yield dirs
+    for t in s["types"]:
+        for p in parts(t):
+            yield p["dirs"]
+            for f in p["fields"]:
+                yield f["dirs"]
+                for a in f.get("args", []):
+                    yield a["dirs"]
+            for v in p["values"]:
+                yield v["dirs"]
+    for d in s["dirdefs"]:
+        for a in d["args"]:
+            yield a["dirs"]
+
+
+def repair(s, rule, rng):
+    """one repairing mutation aimed at the specification rule `rule`; None when it does not apply.
+    Repairs choose a *different* way back into validity than undoing the mutation where they can."""
+    m = _cp(s)
+    objs = [t["name"] for t in kinds(m, "object")]
+    if rule in ("fields_nonempty", "input_nonempty", "enum_nonempty", "union_nonempty"):
+        done = False
+        for t in m["types"]:
+            key = {"object": "fields", "interface": "fields", "input": "fields", "enum": "values",
+                   "union": "members"}.get(t["kind"])
+            if key and not any(p[key] for p in parts(t)):
+                target = t["exts"][0] if t["exts"] and rng.random() < 0.5 else t
+                if t["kind"] in ("object", "interface"):
+                    target["fields"].append(F("fixed", "Int"))
+                elif t["kind"] == "input":
+                    target["fields"].append(A("fixed", "Int"))
+                elif t["kind"] == "enum":
+                    target["values"].append(V("FIXED"))
+                elif objs:
+                    target["members"].append(objs[0])
+                done = True
+        return m if done else None
+    if rule in ("field_output_types", "arg_input_types", "input_field_types", "dirdef_arg_types"):
+        out_ok = {t["name"] for t in m["types"] if t["kind"] != "input"} | set(BUILTIN_SCALARS)
+        in_ok = {t["name"] for t in m["types"] if t["kind"] in ("scalar", "enum", "input")} | set(BUILTIN_SCALARS)
+        for t in m["types"]:
+            for p in parts(t):
+                for f in p["fields"]:
+                    ok = in_ok if t["kind"] == "input" else out_ok
+                    if inner(f["type"]) not in ok:
+                        f["type"] = f["type"].replace(inner(f["type"]), rng.choice(["Int", "String", "ID"]))
+                        if "default" in f:
+                            f["default"] = None
+                    for a in f.get("args", []):
+                        if inner(a["type"]) not in in_ok:
+                            a["type"] = a["type"].replace(inner(a["type"]), "Int")
+                            a["default"] = None
+        for d in m["dirdefs"]:
+            for a in d["args"]:
+                if inner(a["type"]) not in in_ok:
+                    a["type"] = a["type"].replace(inner(a["type"]), "Int")
+                    a["default"] = None
+        return m
+    if rule == "arg_unique":
+        def dedup(args):
+            seen, out = set(), []
+            for a in args:
+                if a["name"] not in seen:
+                    out.append(a)
+                seen.add(a["name"])
+            return out
+        for t in m["types"]:
+            for p in parts(t):
+                for f in p["fields"]:
+                    if "args" in f:
+                        f["args"] = dedup(f["args"])
+        for d in m["dirdefs"]:
+            d["args"] = dedup(d["args"])
+        return m
+    if rule in ("implements_targets", "no_self_implement"):
+        ifs = {t["name"] for t in kinds(m, "interface")}
+        for t in m["types"]:
+            for p in parts(t):
+                p["impls"] = [i for i in p["impls"] if i in ifs and i != t["name"]]
+        return m
+    if rule == "transitive_interfaces":
+        for t in m["types"]:
+            if t["kind"] in ("object", "interface"):
+                for i in list(all_impls(t)):
+                    it = get_type(m, i)
+                    if it is None:
+                        continue
+                    for j in all_impls(it):
+                        if j not in all_impls(t) and j != t["name"]:
+                            (t["exts"][0] if t["exts"] and rng.random() < 0.3 else t)["impls"].append(j)
+        return m
+    if rule in ("interface_fields_present", "interface_field_types", "interface_field_args",
+                "interface_extra_args"):
+        for t in m["types"]:
+            if t["kind"] not in ("object", "interface"):
+                continue
+            for i in all_impls(t):
+                it = get_type(m, i)
+                if it is None or it["kind"] != "interface":
+                    continue
+                for ifd in all_fields(it):
+                    mine = next((f for f in all_fields(t) if f["name"] == ifd["name"]), None)
+                    if mine is None:
+                        if rule == "interface_fields_present":
+                            g = copy.deepcopy(ifd)
+                            g["dirs"] = []
+                            for a in g["args"]:
+                                a["dirs"] = []
+                            t["fields"].append(g)
+                        continue
+                    if rule == "interface_field_types":
+                        mine["type"] = ifd["type"] + ("!" if rng.random() < 0.3 and not ifd["type"].endswith("!") else "")
+                    if rule == "interface_field_args":
+                        names = {a["name"]: a for a in mine["args"]}
+                        for ia in ifd["args"]:
+                            if ia["name"] in names:
+                                names[ia["name"]]["type"] = ia["type"]
+                                names[ia["name"]]["default"] = ia["default"]
+                            else:
+                                x = copy.deepcopy(ia)
+                                x["dirs"] = []
+                                mine["args"].append(x)
+                    if rule == "interface_extra_args":
+                        inames = {a["name"] for a in ifd["args"]}
+                        for a in mine["args"]:
+                            if a["name"] not in inames and a["type"].endswith("!") and a["default"] is None:
+                                if rng.random() < 0.5:
+                                    a["type"] = a["type"][:-1]
+                                else:
+                                    a["default"] = "[]" if a["type"].startswith("[") else "1"
+        return m
+    if rule == "union_members_object":
+        for t in kinds(m, "union"):
+            for p in parts(t):
+                p["members"] = [x for x in p["members"] if x in objs]
+        return m
+    if rule == "enum_value_names":
+        return None
+    if rule == "reserved_names":
+        def fix(n):
+            return "r" + n.lstrip("_") if n.startswith("__") else n
+        for t in m["types"]:
+            t["name"] = fix(t["name"])
+            for p in parts(t):
+                for f in p["fields"]:
+                    f["name"] = fix(f["name"])
+                    for a in f.get("args", []):
+                        a["name"] = fix(a["name"])
+                for v in p["values"]:
+                    v["name"] = fix(v["name"])
+        for d in m["dirdefs"]:
+            d["name"] = fix(d["name"])
+            for a in d["args"]:
+                a["name"] = fix(a["name"])
+        return m
+    if rule in ("root_query", "root_object", "root_distinct"):
+        if not objs:
+            return None
+        q = "Query" if "Query" in objs else ("Q" if "Q" in objs else objs[0])
+        m["schema_def"] = SD([("query", q)], m["schema_def"]["dirs"] if m.get("schema_def") else [])
+        m.pop("orphan_schema_exts", None)
+        return m
+    if rule == "input_no_nonnull_cycle":
+        # break every non-null singular reference between input objects of the mutator's chains, one way or another
+        ins = {t["name"] for t in kinds(m, "input")}
+        for t in kinds(m, "input"):
+            for p in parts(t):
+                for f in p["fields"]:
+                    if f["type"].endswith("!") and not f["type"].startswith("[") and inner(f["type"]) in ins \
+                            and inner(f["type"]).startswith("Z"):
+                        f["type"] = rng.choice([inner(f["type"]), "[%s!]!" % inner(f["type"])])
+                        f["default"] = None
+        return m
+    if rule.startswith("dir_") or rule in ("dirdef_no_self_ref", "builtin_redefinition"):
+        for dl in _each_dirlist(m):
+            dl[:] = [d for d in dl if d["name"] not in MUTATOR_DIRECTIVES]
+        return m
+    return None
